@@ -52,7 +52,8 @@ GENERIC_C_COORDS = {
 }
 
 NP_DTYPES = {"f8": numpy.float64, "f4": numpy.float32, "i4": numpy.int32, "i2": numpy.int16,
-             "i8": numpy.int64, "b1": numpy.bool_, "M8": numpy.dtype("datetime64[ns]")}
+             "i8": numpy.int64, "b1": numpy.bool_, "M8": numpy.dtype("datetime64[ns]"),
+             "u2": numpy.uint16, "u4": numpy.uint32}
 # "M8": a time stamp per cell (e.g. the time of the last observation): code c is stored as
 # 2000-01-01 + c seconds, a missing value as NaT
 STAMP_EPOCH = numpy.datetime64("2000-01-01T00:00:00", "ns")
@@ -579,6 +580,8 @@ def build_ugrid(spec):
     fill_value = enc.get("fill_value")
     if fill_value is None:
         fill_value = 999999 if np_dtype != numpy.int16 else 32767
+    if numpy.dtype(np_dtype).kind == "u" and (fill_value < 0 or fill_value > numpy.iinfo(np_dtype).max):
+        fill_value = int(numpy.iinfo(np_dtype).max)      # what netCDF uses for unsigned types
     fill_style = enc["fill"]
     supply = enc["supply"]
     transposed = enc.get("transposed", [])
@@ -617,6 +620,11 @@ def build_ugrid(spec):
     if "face_face" in supply:
         conn("face_face", tables["face_face"], max_nodes, d["face"], d["max_node"],
              "face_face_connectivity")
+    for key in enc.get("dangling") or ():
+        # the mesh variable names a table that is not in the dataset (dropped by some earlier
+        # processing step): it is then simply not supplied
+        if key not in supply:
+            mesh_attrs[key + "_connectivity"] = names[key]
     if enc.get("face_dim_attr") or "face_node" in transposed:
         mesh_attrs["face_dimension"] = d["face"]
     if enc.get("edge_dim_attr") or any(k in transposed for k in ("edge_node", "edge_face")):
@@ -739,6 +747,10 @@ def build_raw(spec):
         if dim not in coords and dim not in data_vars:
             coords[dim] = ([dim], numpy.array(labels, dtype=numpy.int64), {})
 
+    for name, dim in (spec.get("aux_coords") or {}).items():
+        # an auxiliary coordinate without any attributes on an existing dimension (layer
+        # numbers on the depth dimension, say)
+        coords[name] = ([dim], numpy.arange(1, dim_sizes(spec)[dim] + 1, dtype=numpy.int64), {})
     for dim, size in (spec.get("coord_only_dims") or {}).items():
         # a dimension that only a coordinate variable uses (a list of station labels, say)
         if dim not in dim_sizes(spec):
